@@ -64,6 +64,11 @@ CHECKS = {
         note="Order of events inside one batch call is not compared (DESIGN 4.7).",
         technique=SIM + "; per-entity event/model-difference oracle",
         ref="DESIGN.md section 5, C11"),
+    "C13": dict(
+        text="Metamorphic check: a generated history is executed on a fresh world while a trace is recorded per operation (returned handles, counts, iteration order of scripted queries, of Query(All()) and of every registered filter, event sequence with content, DumpEntities, digest of the hidden state); the same operations are then executed on a second fresh world with frequent and forced garbage collections, and the traces must be identical step by step. In addition the same seed is run in 2 (quick) / 3 (thorough) separate OS processes and the digests of all traces are compared.",
+        note="'Every process' is sampled by a handful of processes; GC timing is perturbed, not enumerated.",
+        technique="metamorphic property-based testing (rapid): same history twice => same trace, under GC perturbation and across OS processes",
+        ref="DESIGN.md section 5, C13"),
     "C16": dict(
         text="Generated interleavings of registrations of generated type shapes (relation embedded first / later / absent, structs, arrays, zero-sized, non-struct) with entity operations biased to the newest and highest IDs, re-registration, registration under lock, filling the registry to the limit plus one, and the resource registry likewise; after every operation the registry observables are checked for density, stability and consistency and every tracked entity is read through every registered ID. Both mask-width builds in both tiers.",
         note="Type shapes come from a finite family built with reflect; a named (non-embedded) first field of type ecs.Relation is not generated (ambiguous in the docs, DESIGN 4.11).",
